@@ -97,7 +97,7 @@ theorem findSequences_total (env : Model.SeqEnv) (dir : String) (db : Bytes) :
        else match env.fs (dir ++ "/base/" ++ toString oid ++ "/1259") with
         | none => pure none
         | some classData => do
-          let l ← Model.findSeqLoop env (dir ++ "/base/" ++ toString oid) (env.parseClass classData)
+          let l ← Model.findSeqLoop env (dir ++ "/base/" ++ toString oid) (Model.seqVisitOrder env (env.parseClass classData))
           pure (some l)) = .ok r := by
     intro oid
     by_cases h0 : oid = 0
@@ -106,7 +106,7 @@ theorem findSequences_total (env : Model.SeqEnv) (dir : String) (db : Bytes) :
       cases env.fs (dir ++ "/base/" ++ toString oid ++ "/1259") with
       | none => exact ⟨none, rfl⟩
       | some cd =>
-        obtain ⟨l, hl⟩ := findSeqLoop_total env (dir ++ "/base/" ++ toString oid) (env.parseClass cd)
+        obtain ⟨l, hl⟩ := findSeqLoop_total env (dir ++ "/base/" ++ toString oid) (Model.seqVisitOrder env (env.parseClass cd))
         simp only [hl, ok_bind]
         exact ⟨_, rfl⟩
   unfold Model.findSequences
